@@ -1468,9 +1468,6 @@ func runPhase(p phase, total *counters, mu *sync.Mutex, genCounts map[string]int
 				}
 				key := fmt.Sprintf("%s:%s:n=%d", p.part, p.a.name, n)
 				total.perPhase[key] += c.trees
-				if p.part == "prefix" {
-					total.perPhase[key] += 0
-				}
 				mu.Unlock()
 			}(w)
 		}
@@ -1514,6 +1511,7 @@ func doReplay(path string) {
 		os.Exit(0)
 	}
 	m := martianhttp.NewModifier()
+	last := 0
 	for _, d := range []string{rp.Previous, rp.Config} {
 		if d == "" {
 			continue
@@ -1521,7 +1519,22 @@ func doReplay(path string) {
 		rw := httptest.NewRecorder()
 		m.ServeHTTP(rw, httptest.NewRequest("POST", "http://martian.proxy/configure", strings.NewReader(d)))
 		fmt.Printf("POST %s\n  -> %d %s\n", d, rw.Code, strings.TrimSpace(rw.Body.String()))
+		last = rw.Code
 	}
+	if rp.Part == "reject" && last == 200 {
+		fmt.Println("result: a configuration that had to be rejected was accepted")
+		os.Exit(1)
+	}
+	if rp.Msg != nil && rp.Expected != nil {
+		var calls int64
+		obs := observe(m, m, *rp.Msg, &calls)
+		fmt.Printf("message: %s\nexpected: %+v\nobserved: %+v\n", *rp.Msg, *rp.Expected, obs)
+		if !sameOutcome(*rp.Expected, obs) && diff(*rp.Expected, obs) != "" {
+			fmt.Println("result: effect differs")
+			os.Exit(1)
+		}
+	}
+	fmt.Println("result: as demanded")
 	os.Exit(0)
 }
 
@@ -1531,8 +1544,6 @@ type quiet struct{}
 func (quiet) Infof(string, ...interface{})  {}
 func (quiet) Debugf(string, ...interface{}) {}
 func (quiet) Errorf(string, ...interface{}) {}
-
-var stopProf = func() {}
 
 var phaseCost []string
 
@@ -1617,6 +1628,5 @@ func main() {
 		"leaf behaviour (header append on X-Trace/X-Cond, Content-Length and Host special cases, url.Modifier, status.Modifier) is taken as given; the property under test is the composition",
 		"rejection cases are limited to unknown names, scope strings outside {request,response}, scopes a node type does not implement and syntactically invalid JSON; well-formed JSON of the wrong type is not examined",
 	}
-	stopProf()
 	rep.Finish()
 }
